@@ -83,6 +83,28 @@ def gen_cases(rng, tier, scale):
     for v in [0, 1, F(0.0), F(-0.0), -1]:
         cases.append(rcase(f'z{k}', '{{#if v includeZero=true}}T{{else}}F{{/if}}|{{#unless v includeZero=true}}T{{else}}F{{/unless}}',
                            {'v': v}, entry=4, kind='iz', v=v, tags=['includeZero'])); k += 1
+    # hash arguments on chain links: includeZero on the head and on every later link, if/unless mixed
+    IZV = [0, F(0.0), F(-0.0), False, None, '', 1, 'x', [], [0]]
+    m = (150 if tier == 'quick' else 3000) * scale
+    for i in range(m):
+        ln = rng.randint(2, 5)
+        links = [(rng.choice(['if', 'unless']), rng.random() < 0.6, rng.choice(IZV)) for _ in range(ln)]
+        s = ''
+        for j, (kd, iz, v) in enumerate(links):
+            s += ('{{#%s c%d%s}}' if j == 0 else '{{else %s c%d%s}}') % (kd, j, ' includeZero=true' if iz else '') + f'<{j}>'
+        has_else = rng.random() < 0.6
+        s += ('{{else}}<E>' if has_else else '') + '{{/%s}}' % links[0][0]
+        def tr(v, iz):
+            if isinstance(v, F) or (isinstance(v, (int, float)) and not isinstance(v, bool)):
+                fv = v.v if isinstance(v, F) else v
+                return fv != 0 or iz
+            return bool(v)
+        exp = '<E>' if has_else else ''
+        for j, (kd, iz, v) in enumerate(links):
+            if tr(v, iz) != (kd == 'unless'):
+                exp = f'<{j}>'
+                break
+        cases.append(rcase(f'zc{i}', s, {f'c{j}': l[2] for j, l in enumerate(links)}, entry=4, kind='izchain', exp=exp, tags=['includeZero-chain']))
     cases.append(rcase('sub0', '{{#if a}}A{{else}}B{{/if}}', {'a': SUBNORMAL}, entry=4, kind='subnormal', tags=['subnormal']))
     # no later body is evaluated: counting probes in every branch
     for i in range(100 * scale):
@@ -106,6 +128,8 @@ def oracle(c, io, mo):
     if c['kind'] == 'iz':
         exp = 'T|F'
         return None if r.get('out') == exp else f'includeZero: expected {exp}, got {r.get("out")}'
+    if c['kind'] == 'izchain':
+        return None if r.get('out') == c['exp'] else f'chain with includeZero links: expected {c["exp"]!r}, got {r.get("out", r.get("reason"))!r}'
     if c['kind'] == 'subnormal':
         return None if r.get('out') == 'A' else f'non-zero subnormal must be truthy: expected A, got {r.get("out")}'
     if c['kind'] == 'cnt':
